@@ -1,5 +1,7 @@
 package schema
 
+import "context"
+
 // C13 — schemas are safe for concurrent use (reduced: sufficient condition). Every operation, on every path,
 // must write only to memory it allocated itself, or touch shared cells under a common lock. The engine freezes
 // the schema graph and all package-level state (verifSharedBegin), runs the operations and reports every write
@@ -10,9 +12,9 @@ func init() {
 	verifRegister("VerifC13_FirstUse", VerifC13_FirstUse)
 }
 
-const verifNShared = 10
+const verifNShared = 12
 
-func verifSharedCase(k int) (s Type, ops func(i int)) {
+func verifSharedCase(k int) (s any, ops func(i int)) {
 	switch k {
 	case 0: // units on a package-level definition: parsing
 		is := NewIntSchema(nil, nil, UnitBytes)
@@ -92,6 +94,34 @@ func verifSharedCase(k int) (s Type, ops func(i int)) {
 		return e, func(i int) {
 			_ = e.ValidateCompatibility(e)
 			_, _ = e.Unserialize(int64(i))
+		}
+	}
+	if k == 10 || k == 11 {
+		// step calls: a step and a signal of the same run (10) or of different runs (11) on first use of the run
+		step := NewCallableStepWithSignals[*verifStepData, map[string]any](
+			"s",
+			verifScopeOf(map[string]*PropertySchema{}, "In"),
+			map[string]*StepOutputSchema{"ok": NewStepOutputSchema(verifScopeOf(map[string]*PropertySchema{}, "Ok"), nil, false)},
+			map[string]CallableSignal{
+				"sig": NewCallableSignal[*verifStepData, map[string]any]("sig",
+					verifScopeOf(map[string]*PropertySchema{}, "Sig"), nil,
+					func(ctx context.Context, d *verifStepData, in map[string]any) {}),
+			},
+			nil, nil,
+			func() *verifStepData { return &verifStepData{} },
+			func(ctx context.Context, d *verifStepData, in map[string]any) (string, any) { return "ok", map[string]any{} },
+		)
+		cs := NewCallableSchema(step)
+		return step, func(i int) {
+			run := "r"
+			if k == 11 && i == 1 {
+				run = "r2"
+			}
+			if i == 0 {
+				_, _, _ = cs.CallStep(context.Background(), run, "s", map[string]any{})
+			} else {
+				_ = cs.CallSignal(context.Background(), run, "s", "sig", map[string]any{})
+			}
 		}
 	}
 	panic("bad case")
